@@ -72,6 +72,7 @@ class SimLoop(asyncio.BaseEventLoop):
         self.exceptions = []
         self.set_exception_handler(self._on_exception)
         self.skipped_dead = 0
+        self.timer_log = None
 
     # -- clock
     def time(self):
@@ -95,6 +96,8 @@ class SimLoop(asyncio.BaseEventLoop):
             if r:
                 when = self._now + (when - self._now) * r
         timer = SimTimer(when, callback, args, self, context)
+        if self.timer_log is not None:
+            self.timer_log.append(when)
         self._tseq += 1
         timer._seq = self._tseq
         heapq.heappush(self._scheduled, timer)
@@ -266,6 +269,8 @@ class Sim:
         self.cfg = cfg or {}
         self.loop = SimLoop(self)
         self.loop.max_iterations = self.cfg.get("max_iterations", 200000)
+        if self.cfg.get("trace_timers"):
+            self.loop.timer_log = []
         self.events = []  # heap of (t, seq, kind, data)
         self.eseq = 0
         self.log = []
